@@ -788,3 +788,112 @@ func (c *TermCtx) Query(asserts []*Term, wantModel bool, modelTerms []*Term) str
 	// "str.*" are theory symbols in cvc5; ours are uninterpreted
 	return strings.ReplaceAll(sb.String(), "str.", "gostr.")
 }
+
+// Subst replaces every occurrence of term from by to (used for case-split proof hints), rebuilding
+// through the simplifying constructors so that arithmetic with the literal folds.
+func (c *TermCtx) Subst(t, from, to *Term, memo map[int]*Term) *Term {
+	if t == from {
+		return to
+	}
+	if r, ok := memo[t.id]; ok {
+		return r
+	}
+	var r *Term
+	switch t.kind {
+	case kLit, kVar, kBound:
+		r = t
+	case kDef:
+		nd := c.Subst(t.def, from, to, memo)
+		if nd == t.def {
+			r = t
+		} else {
+			r = c.Name(nd, strings.SplitN(t.name, "!", 2)[0])
+		}
+	case kQuant:
+		nb := c.Subst(t.args[0], from, to, memo)
+		if nb == t.args[0] {
+			r = t
+		} else if t.op == "forall" {
+			r = c.Forall(t.bvars, nb)
+		} else {
+			r = c.Exists(t.bvars, nb)
+		}
+	case kApp:
+		changed := false
+		args := make([]*Term, len(t.args))
+		for i, a := range t.args {
+			args[i] = c.Subst(a, from, to, memo)
+			if args[i] != a {
+				changed = true
+			}
+		}
+		if !changed {
+			r = t
+		} else {
+			r = c.rebuild(t.op, t.sort, args)
+		}
+	}
+	memo[t.id] = r
+	if r != t {
+		for _, f := range c.facts[t.id] {
+			c.AddFact(r, c.Subst(f, from, to, memo))
+		}
+	}
+	return r
+}
+
+func (c *TermCtx) rebuild(op, sort string, args []*Term) *Term {
+	switch op {
+	case "and":
+		return c.And(args...)
+	case "or":
+		return c.Or(args...)
+	case "not":
+		return c.Not(args[0])
+	case "=>":
+		return c.Implies(args[0], args[1])
+	case "=":
+		if args[0].sort == args[1].sort && !isFPSort(args[0].sort) {
+			return c.Eq(args[0], args[1])
+		}
+	case "ite":
+		return c.Ite(args[0], args[1], args[2])
+	case "+":
+		if len(args) == 2 && sort == "Int" {
+			return c.Add(args[0], args[1])
+		}
+	case "-":
+		if len(args) == 2 && sort == "Int" {
+			return c.Sub(args[0], args[1])
+		}
+	case "*":
+		if len(args) == 2 && sort == "Int" {
+			return c.Mul(args[0], args[1])
+		}
+	case "<":
+		if args[0].sort == "Int" {
+			return c.Lt(args[0], args[1])
+		}
+	case "<=":
+		if args[0].sort == "Int" {
+			return c.Le(args[0], args[1])
+		}
+	case ">":
+		if args[0].sort == "Int" {
+			return c.Gt(args[0], args[1])
+		}
+	case ">=":
+		if args[0].sort == "Int" {
+			return c.Ge(args[0], args[1])
+		}
+	case "div":
+		return c.Div(args[0], args[1])
+	case "mod":
+		return c.Mod(args[0], args[1])
+	case "select":
+		return c.Select(args[0], args[1])
+	case "store":
+		return c.Store(args[0], args[1], args[2])
+	}
+	return c.App(op, sort, args...)
+}
